@@ -1,0 +1,109 @@
+//go:build verif
+
+// Contracts (machine-checked by /verif/engine, see /verif/DESIGN.md). Comment-only file:
+// with the build tag off it does not exist, with it on it adds no code.
+package netmc
+
+// ---- C44: teardown exactly once, writers after close, panic containment -----------------------------
+
+// Session teardown is only ever invoked from inside the closeOnce.Do closure (sync.Once: assumed to run its argument
+// exactly once over all callers and goroutines), and every call of closeKnown goes through that Once.
+//@ census Disconnected : only-in (*minecraftConn).closeKnown$1 ; props C44
+//@ func (*minecraftConn).closeKnown
+//@   props C44
+//@   at-call Do as once: assert arg0 == c.closeOnce
+//@   ensures [teardown-through-once] called(once)
+
+// Inside the Once: cancel the context (Closed() becomes true), close the socket, then tell the session handler.
+//@ func (*minecraftConn).closeKnown$1
+//@   props C44
+//@   at-call dyn.cancelCtx as cancel
+//@   at-call (Conn).Close as sock: assert called(cancel)
+//@   at-call ActiveSessionHandler as ash: assert called(sock)
+//@   at-call Disconnected as disc: assert called(cancel) && called(sock) && arg0 == res(ash) && !isnil(res(ash))
+//@   ensures [cancels-and-closes] called(cancel) && called(sock) && called(ash)
+//@   ensures [handler-told] !isnil(res(ash)) ==> called(disc)
+
+//@ func (*minecraftConn).Close
+//@   props C44
+//@   at-call closeKnown as ck: assert arg0 == c && arg1
+//@   ensures [close-tears-down] called(ck) && result == res(ck)
+
+// A write error closes the connection.
+//@ func (*minecraftConn).closeOnWriteErr
+//@   props C44
+//@   at-call (*minecraftConn).Close as cls: assert arg0 == c && err != nil
+//@   ensures [error-closes] err != nil ==> called(cls)
+
+// Writers: once closed they report ErrClosedConn and do not touch the encoder; an encoder error closes.
+//@ func (*minecraftConn).Write
+//@   props C44
+//@   at-call Closed as cl: assert ref(arg0) == c
+//@   at-call (Writer).Write as enc: assert called(cl) && !res(cl)
+//@   at-call closeOnWriteErr as cwe: assert arg0 == c && arg1 == res(enc, 1)
+//@   at-call Flush as fl: assert called(enc) && res(enc, 1) == nil
+//@   ensures [closed-reports] called(cl) && (res(cl) ==> err == ErrClosedConn && !called(enc) && !called(fl))
+//@   ensures [error-closes] called(enc) && res(enc, 1) != nil ==> called(cwe) && err != nil
+
+//@ func (*minecraftConn).WritePacket
+//@   props C44
+//@   at-call Closed as cl: assert ref(arg0) == c
+//@   at-call BufferPacket as bp: assert called(cl) && !res(cl)
+//@   at-call Flush as fl: assert called(bp) && res(bp) == nil
+//@   ensures [closed-reports] called(cl) && (res(cl) ==> err == ErrClosedConn && !called(bp) && !called(fl))
+
+//@ func (*minecraftConn).BufferPayload
+//@   props C44
+//@   at-call Closed as cl: assert ref(arg0) == c
+//@   at-call (Writer).Write as enc: assert called(cl) && !res(cl)
+//@   ensures [closed-reports] called(cl) && (res(cl) ==> err == ErrClosedConn && !called(enc))
+
+//@ func (*minecraftConn).bufferPacket
+//@   props C44
+//@   at-call Closed as cl: assert ref(arg0) == c
+//@   at-call (Writer).WritePacket as enc: assert called(cl) && !res(cl)
+//@   at-call Queue as q: assert called(cl) && !res(cl)
+//@   ensures [closed-reports] called(cl) && (res(cl) ==> err == ErrClosedConn && !called(enc) && !called(q))
+
+//@ func (*minecraftConn).bufferPacket$1
+//@   props C44
+//@   at-call closeOnWriteErr as cwe: assert arg0 == c && arg1 == err && err != nil
+//@   ensures [error-closes] err != nil ==> called(cwe)
+
+//@ func (*minecraftConn).Flush
+//@   props C44
+//@   at-call (Writer).Flush as fl
+//@   at-call closeOnWriteErr as cwe: assert arg0 == c && arg1 == res(fl) && res(fl) != nil
+//@   ensures [error-closes] called(fl) && result == res(fl) && (res(fl) != nil ==> called(cwe))
+
+// CloseWith: writes then closes (deferred), unless already closed.
+//@ func CloseWith
+//@   props C44
+//@   at-call Closed as cl: assert arg0 == c
+//@   at-call WritePacket as wp: assert called(cl) && !res(cl) && arg0 == c && arg1 == packet
+//@   at-call CloseWith$1 as dc
+//@   ensures [closed-reports] called(cl) && (res(cl) ==> !called(wp) && !called(dc))
+//@   ensures [write-then-close] !res(cl) ==> called(wp) && called(dc)
+//@ func CloseWith$1
+//@   props C44
+//@   at-call Close as cls: assert arg0 == c
+//@   ensures [closes] called(cls)
+
+// The read loop: ending it (for any reason) tears the connection down; handler panics are recovered in `loop`,
+// which is the only closure that can run `cond`, which is the only one that can run `next`, the only caller of HandlePacket.
+//@ func (*minecraftConn).startReadLoop$2
+//@   props C44
+//@   at-call closeKnown as ck: assert arg0 == c && !arg1
+//@   ensures [loop-end-tears-down] called(ck)
+//@ func (*minecraftConn).startReadLoop
+//@   props C44
+//@   at-call startReadLoop$2 as teardown
+//@   ensures [deferred-teardown] called(teardown)
+//@ census HandlePacket : only-in (*minecraftConn).startReadLoop$3 ; props C44
+//@ closure-only (*minecraftConn).startReadLoop$3 in (*minecraftConn).startReadLoop$4 ; props C44
+//@ closure-only (*minecraftConn).startReadLoop$4 in (*minecraftConn).startReadLoop$5 ; props C44
+//@ recovers (*minecraftConn).startReadLoop$5 ; props C44
+//@ func (*minecraftConn).startReadLoop$5$1
+//@   props C44
+//@   at-store ok: assert value
+//@   ensures [keeps-looping-after-panic] true
